@@ -103,6 +103,9 @@ def case(spec):
         if kind == 'bodies':
             # ------- identical catalogue, different bodies --------------------------------
             variant = rng.choice(['acorn', 'acorn', 'watford'])
+            hdfs = idx % 5 == 4          # HDFS flag bit set: only the metamorphic part is judged for these
+            if hdfs:
+                variant = 'acorn'
             spt = rng.choice([10, 18])
             total = rng.choice([400, 800]) if spt == 10 else rng.choice([720, 1023])
             tracks = dm.std_geometry(total, spt)
@@ -153,6 +156,8 @@ def case(spec):
                         e.body = dict(body_variants(rng, e.length, rng.randbytes(e.length)))[vk]
                 s = dm.Surface(variant, tracks, spt, [dm.Volume(None, 0, tracks * spt, 0, cat)], rng.getrandbits(16), 0)
                 img = bytearray(s.image())
+                if hdfs:
+                    img[256 + 6] |= 0x08          # "HDFS by its flag bit" (single-sided)
                 if vk == 'opus-like' and spt == 18:
                     own = s.owners().get(16)
                     if own and own[0] == 'file':
@@ -177,14 +182,16 @@ def case(spec):
                 got_slots = slots_total(obs, '0')
                 lines = [rm.parse_info_line(l) for l in obs['info :0.#.*'][1].split(b'\n') if l]
                 exp = [rm.expected_info(e) for e in cat.all_entries()]
-                if got_slots != want_slots or lines != exp:
+                if hdfs:
+                    res.add('hdfs_flagged_variants', 1)
+                elif got_slots != want_slots or lines != exp:
                     res.violation('misidentified:%s-as-other:%s' % (variant, vk),
                                   'a well-formed %s disc whose file bodies are "%s" is not listed as %s (slots %r, '
                                   '%d of %d catalogue lines)' % (variant, vk, variant, got_slots, len(lines), len(exp)),
                                   {'free': obs['free 0'], 'cat': obs['cat 0'][1][:300], 'config': obs['show-config'][1]},
                                   files, [dfsbin, '--file', path, 'info', ':0.#.*'])
                 g = geometry_of(obs)
-                if g is None or g[2] * g[3] < total or g[1] != 1:
+                if (g is None or g[2] * g[3] < total or g[1] != 1) and not (hdfs and g is None):
                     res.violation('geometry-too-small-or-changed:%s' % vk, 'geometry %r for a catalogue of %d sectors' % (g, total),
                                   {'config': obs['show-config'][1]}, files, [dfsbin, '--show-config', '--file', path, 'cat'])
                 res.sigs.append('bodies|%s|%d|%d|%s|%d' % (variant, spt, total, vk, idx))
@@ -200,6 +207,34 @@ def case(spec):
                                   {'this': {k: obs[k] for k in diff}, 'random': {k: base[1][k] for k in diff}}, f2,
                                   [dfsbin, '--file', path, diff[0].split()[0]])
             res.sample = {'kind': kind, 'variant': variant, 'spt': spt, 'total': total, 'files': len(ents), 'variants': kinds}
+        elif kind == 'inter':
+            # two-sided interleaved images: each side is identified on its own markers
+            from ..dfsutil import make_image
+            img = make_image(rng, tmp, kind='inter', maxlen_sectors=10)
+            raw = open(img.path, 'rb').read()
+            files = {os.path.basename(img.path): raw}
+            dvs = ['%d%s' % (d, v.label or '') for s_, d in zip(img.surfaces, img.drives) for v in s_.volumes]
+            obs, bad = observe(dfsbin, img.path, dvs, res, files)
+            res.events += 1
+            problems = []
+            for s_, d in zip(img.surfaces, img.drives):
+                for v in s_.volumes:
+                    dv = '%d%s' % (d, v.label or '')
+                    lines = [rm.parse_info_line(l) for l in obs['info :%s.#.*' % dv][1].split(b'\n') if l]
+                    if obs['info :%s.#.*' % dv][0] != 0 or lines != [rm.expected_info(e) for e in v.cat.all_entries()]:
+                        problems.append('listing of %s' % dv)
+                    if s_.variant != 'opus' and slots_total(obs, dv) != (62 if s_.variant == 'watford' else 31):
+                        problems.append('slot total of %s' % dv)
+                g = geometry_of(obs, d)
+                if g is None or g[2] != s_.tracks or g[3] != s_.spt:
+                    problems.append('geometry of drive %d: %r' % (d, g))
+            if problems:
+                res.violation('misidentified:interleaved:%s' % img.surfaces[0].variant,
+                              'two-sided interleaved image (%d tracks, %d spt): %s' % (img.surfaces[0].tracks, img.surfaces[0].spt,
+                                                                                      '; '.join(problems[:4])),
+                              {'config': obs['show-config'][1]}, files, [dfsbin, '--show-config', '--file', img.path, 'cat'])
+            res.sigs.append('inter|%s|%d|%d|%d' % (img.surfaces[0].variant, img.surfaces[0].tracks, img.surfaces[0].spt, idx))
+            res.sample = {'kind': kind, 'image': os.path.basename(img.path), 'tracks': img.surfaces[0].tracks}
         elif kind == 'watford-hi':
             # Watford discs with a file at every start sector congruent to 2 modulo 256, and Acorn discs
             # with a full catalogue whose last entry starts in sector 2 with the Watford marker bytes
@@ -321,7 +356,7 @@ def case(spec):
 def main(tier, seed, scale=1.0):
     BIN['san'] = build.ensure('san')
     q = tier == 'quick'
-    counts = {'bodies': 90 if q else 4000, 'watford-hi': 40 if q else 1000, 'opus': 100 if q else 3000}
+    counts = {'bodies': 90 if q else 4000, 'watford-hi': 40 if q else 1000, 'opus': 100 if q else 3000, 'inter': 60 if q else 1500}
     specs = []
     for k, n in counts.items():
         specs += [(seed, k, i, tier) for i in range(max(4, int(n * scale)))]
